@@ -39,6 +39,15 @@ static void handler(vh::Reader& r, vh::Out& o)
 		o.f(GammaLn(r.num()));
 	else if(op == "gamma")
 		o.f(Gamma(r.num()));
+	else if(op == "gamrec")
+	{
+		// GammaLn(x), GammaLn(x+1), Gamma(x), Gamma(x+1): the recurrence Gamma(x+1) = x Gamma(x)
+		double x = r.num();
+		o.f(GammaLn(x));
+		o.f(GammaLn(x + 1.0));
+		o.f(Gamma(x));
+		o.f(Gamma(x + 1.0));
+	}
 	else if(op == "gammaq" || op == "gammap" || op == "qint" || op == "pser" || op == "qcf" || op == "upper" || op == "lower")
 	{
 		double x = r.num(), a = r.num();
